@@ -331,6 +331,21 @@ def asm_table(facts):
     events = []
 
     def hook(w, st, node, name, recv, args):
+        if node.get("k") == "call" and name.split("::")[-1] == "in_zeropage" and args and isinstance(args[0], Sym):
+            # predicate: the operand is encoded in zero page (the variable is in zero page and, for a
+            # constant address, the offset does not leave it).  true => memory == Zeropage
+            uni = w.facts.enum_variants("VariableMemory")
+            outs = []
+            s1 = st.restrict(args[0].key + ".memory", allowed=["Zeropage"], universe=uni)
+            if s1 is not None:
+                if s1 is st:
+                    s1 = st.copy()
+                s1.notes["zp_pred"] = True
+                outs.append(Outcome("val", s1, Const(True)))
+            s2 = st.copy()
+            s2.notes["zp_pred"] = False
+            outs.append(Outcome("val", s2, Const(False)))
+            return outs
         if node.get("k") == "mcall" and name == "asm" and node["recv"].get("k") == "path" and node["recv"]["segs"] == ["self"]:
             return Sym("rec:asm:" + expr_text(node), "Result < bool , Error >")
         if node.get("k") == "mcall" and name == "append_asm":
@@ -370,6 +385,7 @@ def asm_table(facts):
             elif k2.endswith(".var_const"):
                 vc = set(allowed) if allowed is not None else {True, False} - set(excl)
         row["memory"] = mem
+        row["zp_pred"] = st.notes.get("zp_pred")
         row["var_type"] = vt
         row["var_const"] = vc
         sk = [k2 for k2 in st.cons if k2.startswith("self.bankswitching_scheme")]
